@@ -92,6 +92,18 @@ def _simp(t):
 class SBool:
     __slots__ = ("t",)
 
+
+    def __str__(self):
+        raise Inapplicable(f"str() of symbolic {type(self).__name__} outside the interpreter")
+
+    def __format__(self, spec):
+        raise Inapplicable(f"format() of symbolic {type(self).__name__} outside the interpreter")
+
+    def __deepcopy__(self, memo):
+        return self
+
+    def __copy__(self):
+        return self
     def __init__(self, t):
         self.t = t
 
@@ -152,6 +164,18 @@ def mkint(t):
 class SInt:
     __slots__ = ("t",)
 
+
+    def __str__(self):
+        raise Inapplicable(f"str() of symbolic {type(self).__name__} outside the interpreter")
+
+    def __format__(self, spec):
+        raise Inapplicable(f"format() of symbolic {type(self).__name__} outside the interpreter")
+
+    def __deepcopy__(self, memo):
+        return self
+
+    def __copy__(self):
+        return self
     def __init__(self, t):
         self.t = t
 
@@ -336,6 +360,18 @@ class SNum:
     (kind='num').  `t` is a z3 Real: the exact mathematical value of the object."""
     __slots__ = ("t", "kind")
 
+
+    def __str__(self):
+        raise Inapplicable(f"str() of symbolic {type(self).__name__} outside the interpreter")
+
+    def __format__(self, spec):
+        raise Inapplicable(f"format() of symbolic {type(self).__name__} outside the interpreter")
+
+    def __deepcopy__(self, memo):
+        return self
+
+    def __copy__(self):
+        return self
     def __init__(self, t, kind="float"):
         self.t = t
         self.kind = kind
@@ -630,6 +666,18 @@ class Fmt:
 class SStr:
     __slots__ = ("atoms",)
 
+
+    def __str__(self):
+        raise Inapplicable(f"str() of symbolic {type(self).__name__} outside the interpreter")
+
+    def __format__(self, spec):
+        raise Inapplicable(f"format() of symbolic {type(self).__name__} outside the interpreter")
+
+    def __deepcopy__(self, memo):
+        return self
+
+    def __copy__(self):
+        return self
     def __init__(self, atoms):
         out = []
         for a in atoms:
@@ -1050,6 +1098,18 @@ class SEnum:
     """A symbolic member of an Enum class: `t` is the z3 Int index into list(cls)."""
     __slots__ = ("cls", "t")
 
+
+    def __str__(self):
+        raise Inapplicable(f"str() of symbolic {type(self).__name__} outside the interpreter")
+
+    def __format__(self, spec):
+        raise Inapplicable(f"format() of symbolic {type(self).__name__} outside the interpreter")
+
+    def __deepcopy__(self, memo):
+        return self
+
+    def __copy__(self):
+        return self
     def __init__(self, cls, t):
         self.cls, self.t = cls, t
 
